@@ -76,7 +76,7 @@ func (f *DescribeMethod) Call(s *slip.Scope, args slip.List, depth int) (result 
 		}
 	}
 	ansi := s.Get("*print-ansi*") != nil
-	right := int(s.Get("*print-right-margin*").(slip.Fixnum))
+	right := slip.RightMarginValue(s.Get("*print-right-margin*"), slip.DefaultRightMargin)
 	var (
 		b   []byte
 		emp string
